@@ -145,3 +145,27 @@ package glyf
 //@     invariant 0 <= i && i <= numPoints + 256 && 0 <= numPoints && numPoints <= 65536 && 0 <= coordBytes && coordBytes <= 1024*i
 //@     invariant 2*numContours + 2 <= pos && pos <= 200000 + 2*i && numContours >= 0 && numContours <= 32767
 //@     decreases numPoints - i
+
+// Components / FixComponents: the component list of a composite glyph is
+// reported exactly; FixComponents returns a NEW glyph whose components are
+// re-pointed through newGid and leaves the original untouched (frame).
+//@ func (g *Glyph) Components() (res []glyph.ID)   props: C11 C10 C16
+//@   requires g != nil ==> is(g.Data, SimpleGlyph) || is(g.Data, CompositeGlyph)
+//@   ensures g == nil || is(g.Data, SimpleGlyph) ==> res == nil
+//@   ensures g != nil && is(g.Data, CompositeGlyph) ==> len(res) == len(g.Data.(CompositeGlyph).Components) && fresh(res) && forall k int :: 0 <= k && k < len(res) ==> res[k] == g.Data.(CompositeGlyph).Components[k].GlyphIndex
+//@   modifies nothing
+//@   loop 0
+//@     invariant len(res) == len(d.Components) && fresh(res) && off(res) == 0
+//@     invariant forall k int :: 0 <= k && k < iter ==> res[k] == d.Components[k].GlyphIndex
+
+//@ func (g *Glyph) FixComponents(newGid map[glyph.ID]glyph.ID) (g2 *Glyph)   props: C11 C10 C16
+//@   requires g != nil ==> is(g.Data, SimpleGlyph) || is(g.Data, CompositeGlyph)
+//@   ensures g == nil ==> g2 == nil
+//@   ensures g != nil && is(g.Data, SimpleGlyph) ==> g2 == g
+//@   ensures g != nil && is(g.Data, CompositeGlyph) ==> g2 != nil && fresh(g2) && is(g2.Data, CompositeGlyph) && g2.Rect16 == g.Rect16
+//@   ensures g != nil && is(g.Data, CompositeGlyph) ==> len(g2.Data.(CompositeGlyph).Components) == len(g.Data.(CompositeGlyph).Components) && fresh(g2.Data.(CompositeGlyph).Components)
+//@   ensures g != nil && is(g.Data, CompositeGlyph) ==> forall k int :: 0 <= k && k < len(g.Data.(CompositeGlyph).Components) ==> g2.Data.(CompositeGlyph).Components[k].GlyphIndex == newGid[g.Data.(CompositeGlyph).Components[k].GlyphIndex] && g2.Data.(CompositeGlyph).Components[k].Flags == g.Data.(CompositeGlyph).Components[k].Flags && g2.Data.(CompositeGlyph).Components[k].Data == g.Data.(CompositeGlyph).Components[k].Data
+//@   modifies nothing
+//@   loop 0
+//@     invariant len(d2.Components) == len(d.Components) && fresh(d2.Components) && off(d2.Components) == 0
+//@     invariant forall k int :: 0 <= k && k < iter ==> d2.Components[k].GlyphIndex == newGid[d.Components[k].GlyphIndex] && d2.Components[k].Flags == d.Components[k].Flags && d2.Components[k].Data == d.Components[k].Data
